@@ -24,6 +24,8 @@ TRUSTED = [
     "translator/c19_atomic2lean.py (AST of util/io.py class atomic_write -> Gen/C19Program.lean: control structure around the file-system calls; write list of "
     "DataStoreDirectory._write); anything outside its fragment is a reported translation problem; the statement semantics / with-statement protocol of "
     "Model/AtomicProg.lean are hand-written; the translated program is compared with the real traces and outcomes for every injected fault on every run",
+    "translator/c19_writers2lean.py (AST of every *.py under src/cogent3 -> Gen/C19Writers.lean: one row per call atomic_write(…): protocol, tmpdir= / in_zip= passed, "
+    "file-system calls in the writer's own handlers / block, close in the block); tied by wrapping atomic_write.__init__ / __enter__ in the traced children",
     "hand-written model lean/CogentModel/Model/AtomicWrite.lean (file system + atomic_write program + handler table), tied by "
     "comparing the model's program / crash states / fault traces with the system-call traces extracted from the real writers on every run",
     "hand-written model lean/CogentModel/Model/Composable.lean (select / writeAll of _apply_to) for the resume theorems",
@@ -37,8 +39,9 @@ ASSUMPTIONS = [
     "writers given a *.zip file name (nested atomic_write) are exercised by the fault injection but not modelled in Lean",
     "the directory data store's record write is modelled at file-operation granularity (Model/StoreWrite.lean: create / fill record, create / fill md5; "
     "variant detected from the kill_open / kill_created injections); the drop of a stale not-completed record after a completed write and the log file are not in that model",
-    "atomic_write(path, tmpdir=D): modelled for the success path (programTmp) and, through the translated program, for every raised OSError (calls issued, outcome); "
-    "kill points on that route are judged by the spec oracle only",
+    "atomic_write(path, tmpdir=D): modelled for the success path (programTmp), every kill point (crashStateTmp) and every raised OSError (faultTraceTmp / faultStateTmp, "
+    "through the translated program); a kill before the rename can leave the temp file in the caller's directory (part of the theorem's statement)",
+    "the bare-object protocol (aw.write(); aw.close()) is modelled for at least one write; a bare object closed without any write only as 'raises'",
     "a fault 'at rmtree' is an OSError from the first unlink / rmdir INSIDE shutil.rmtree (persistent variant: from every one of them)",
     "tempfile.mkdtemp's own retry on FileExistsError is stdlib behaviour outside the model (that injected case is skipped when comparing with the translated program)",
     "zip-member faults: the failing zip_data call is the open of the archive (zipfile's own retry in 'w+b' is part of the model's handler); a failing close() writes nothing",
@@ -365,9 +368,9 @@ def correspondence(ctx):
         "with_block=True,body_unlink=False; any other variant is reported as a correspondence failure"
     )
     _corr_bare(ctx, out)
-    _corr_sites(ctx, out)
     _resume_corr(ctx, out)
     _fine_corr(ctx, out)
+    _corr_sites(ctx, out)
     return out
 
 
@@ -411,8 +414,12 @@ def _corr_sites(ctx, out):
     for r in table:
         rows.setdefault((r["file"], r["func"]), []).append(r)
     seen = set()
-    for cfg, data in sorted(ctx.__dict__.get("_c19data", {}).items()):
-        for st in data["base"].get("sites") or []:
+    runs = [(cfg, _collect(ctx, cfg)["base"].get("sites") or []) for cfg in _configs(ctx)]  # cached; the spec stream needs all of them anyway
+    runs += [(cfg, d["base"].get("sites") or []) for cfg, d in sorted(ctx.__dict__.get("_c19data", {}).items()) if cfg[0] == "atomic_bare"]
+    for i, case in enumerate(_resume_cases(ctx, 1)[:2]):
+        runs.append((("apply_to", "store", bool(i)), case["ref"].get("sites") or []))
+    for cfg, sts in runs:
+        for st in sts:
             out["evaluations"] += 1
             key = (st["file"], st["func"])
             inp = dict(writer=cfg[0], target=cfg[1], present=cfg[2], site=st)
